@@ -3,10 +3,10 @@ import itertools, sys
 from vlib import *
 
 ID = "C08"
-COQ_FILES = ["Common/Corr.v", "Model/Reporter.v", "Proofs/Reporter.v", "Props/C08.v"]
+COQ_FILES = ["Common/Corr.v", "Model/Reporter.v", "Proofs/Reporter.v", "Proofs/ReporterErase.v", "Props/C08.v"]
 PROPS = "Props/C08.v"
 THEOREMS = ["C08_reporter_mutex", "C08_abort_latches", "C08_later_calls_return_latched",
-            "C08_accept_all_invalid_source", "C08_never_abort_invalid_source", "C08_warnings_inert",
+            "C08_accept_all_invalid_source", "C08_never_abort_invalid_source", "C08_warnings_inert", "C08_warnings_erasable",
             "C08_success_iff_no_error", "C08_sub_handler_sound", "C08_no_deadlock", "C08_chain_fuel_enough",
             "C08_run_order_reachable"]
 AXIOMS_OK = []
@@ -212,8 +212,9 @@ class Sim:
                     break
         return sched, res, calls, [[self.error_result(h), h[0]] for h in s[0]]
 
-    def find_schedule(self, obs_res, obs_calls, obs_hfinal, check_calls, limit=60000):
-        """depth-first search for a step-level schedule that reproduces the observation"""
+    def find_schedule(self, obs_res, obs_calls, obs_hfinal, check_calls, limit=300000):
+        """depth-first search (memoised on the model state) for a step-level schedule that reproduces the
+        observation; returns (schedule or None, search_was_complete)"""
         sys.setrecursionlimit(100000)
         seen = set()
         n = len(self.threads)
@@ -252,7 +253,8 @@ class Sim:
                 sched.pop()
             return None
 
-        return rec(self.init(), [])
+        r = rec(self.init(), [])
+        return r, (r is not None or budget[0] > 0)
 
 
 # ----------------------------------------------------------------------------------------------
@@ -366,11 +368,13 @@ def render_file(spec, i, dewarn=False):
         out.append('syntax = "proto2";')
     out.append("package p%d;" % i)
     for d, used in f["imports"]:
-        if used or not dewarn:
+        # used: True = referenced, False = unused (a warning cause, dropped in the twin), None = structural
+        # (cycle back edge / missing file: kept in the twin)
+        if used is not False or not dewarn:
             out.append('import "f%d.proto";' % d)
     k = 0
     for d, used in f["imports"]:
-        if used:
+        if used is True:
             out.append("message U%d_%d { %sp%d.M%d a = 1; }" % (i, d, lbl, d, d))
     out.append("message M%d { %sint32 a = 1; %sstring b = 2; }" % (i, lbl, lbl))
     out.append("enum E%d { E%d_ZERO = 0; E%d_ONE = 1; }" % (i, i, i))
@@ -418,7 +422,7 @@ def gen_spec(rng, kind):
     if kind == "warn":
         # make sure there is at least one warning cause
         f = files[0]
-        if not any(not u for _, u in f["imports"]) and f["syntax"] != "none":
+        if not any(u is False for _, u in f["imports"]) and f["syntax"] != "none":
             f["syntax"] = "none"
     if kind in ("invalid", "cycle") or (kind == "missing" and rng.chance(1, 2)):
         for _ in range(rng.range(1, 7)):
@@ -426,9 +430,9 @@ def gen_spec(rng, kind):
     spec = {"files": files, "kind": kind, "extra": {}}
     if kind == "cycle":
         a = rng.range(1, n - 1)
-        files[a]["imports"].append((rng.below(a + 1), False))       # back edge (or self import)
+        files[a]["imports"].append((rng.below(a + 1), None))        # back edge (or self import)
     if kind == "missing":
-        files[rng.below(n)]["imports"].append((n + 3, False))       # f<n+3>.proto does not exist
+        files[rng.below(n)]["imports"].append((n + 3, None))        # f<n+3>.proto does not exist
     req = [i for i in range(n) if rng.chance(1, 2)] or [0]
     if 0 not in req and rng.chance(2, 3):
         req.append(0)
@@ -507,13 +511,13 @@ def run(ctx):
                 ops = [(h, k, j + 1, (j + h) % 3) for j, (h, k) in enumerate(combo)]
                 seq_cases.append(([0], abort, [ops], [0] * n))
     # random structured: several threads, handler trees, random global order
-    for _ in range(ctx.budget(600, 20000)):
+    for _ in range(ctx.budget(400, 20000)):
         nt = rng.range(1, 4)
         parents, abort, threads = gen_ops_case(rng, nt, 7, 5)
         order = rng.shuffle([t for t, p in enumerate(threads) for _ in p])
         seq_cases.append((parents, abort, threads, order))
     conc_cases = []
-    for k in range(ctx.budget(300, 6000)):
+    for k in range(ctx.budget(250, 6000)):
         nt = rng.range(2, 4)
         parents, abort, threads = gen_ops_case(rng, nt, 5, 4)
         conc_cases.append((parents, abort, threads, k + 1))
@@ -532,6 +536,7 @@ def run(ctx):
     terms, meta = [], []
     nseq = len(seq_cases)
     nowit = 0
+    inconclusive = 0
     for idx, (inp, out) in enumerate(zip(ins, outs)):
         conc = idx >= nseq
         parents, abort, threads = inp["parents"], inp["abort"], [[tuple(o) for o in t] for t in inp["threads"]]
@@ -546,10 +551,13 @@ def run(ctx):
         if not conc:
             term = coq_ops_case(parents, abort, threads, True, inp["order"], out)
         else:
-            sched = sim.find_schedule(out["res"], out["calls"], out["hfinal"], abort >= 0)
+            sched, complete = sim.find_schedule(out["res"], out["calls"], out["hfinal"], abort >= 0)
             if sched is None:
-                nowit += 1
-                ctx.corr_break("handler: no schedule of the model produces the observed concurrent outcome", inp, {"observed": out})
+                if complete:
+                    nowit += 1
+                    ctx.corr_break("handler: no schedule of the model produces the observed concurrent outcome", inp, {"observed": out})
+                else:   # search budget exhausted: says nothing, is recorded
+                    inconclusive += 1
                 continue
             ctx.traces += 1
             term = coq_ops_case(parents, abort, threads, False, sched, out)
@@ -614,6 +622,9 @@ def run(ctx):
         inp, o = meta[k]
         ctx.corr_break("handler model vs implementation (%s)" % inp["mode"], inp, {"observed": o})
     ctx.exhaustive = True
-    ctx.extra["exhaustive_part"] = ("every sequence of <= %d handler operations of one goroutine over 9 operation kinds x the listed "
-                                    "reporter policies" % maxlen)
+    ctx.extra["exhaustive_part"] = ("every sequence of <= %d handler operations of one goroutine over 9 operation kinds (HandleError "
+                                    "positional on root/sub, plain on root/sub, HandleWarning on sub, Error() and ReporterError() on "
+                                    "root/sub) x reporter policies never / abort at call k for every k <= min(2, number of positional "
+                                    "errors in the sequence) / default reporter (sequences of length 1)" % maxlen)
     ctx.extra["concurrent_runs_without_model_schedule"] = nowit
+    ctx.extra["concurrent_runs_schedule_search_inconclusive"] = inconclusive
